@@ -1,5 +1,34 @@
-(* C14 (Japanese half) - rule application is total and pure; the seen-rule filter only removes.  Property theorems only. *)
+(* C14 (Japanese half) - rule application is total on one feature system; the seen-rule filter only removes;
+   the unary rules return exactly the configured targets.  Property theorems only, over the GENERATED GenJa.v.
+   (Purity and repeatability are structural: the model is a Gallina function of its arguments; the iteration order of
+   the shared variables is the insertion order of x_features, as in the source.) *)
 From Coq Require Import List NArith Bool.
 Import ListNotations.
-Require Import Cat CatFacts Unify GramPrims GenTables GenJa GenJaroots JaSpec.
+Require Import Cat CatFacts Unify GramPrims GenTables GenJa GenJaroots JaSpec JaLemmas JaSound JaPure.
 Open Scope N_scope.
+
+(* no exception on categories whose atoms all carry triples, with or without a set of seen rules *)
+Theorem C14_ja_total : forall x y seen, ternary x -> ternary y -> exists rs, GenJa.apply_binary_rules x y seen = Ok_ rs.
+Proof. intros x y seen Tx Ty. now apply ja_binary_total. Qed.
+(* unary rules: no exception on keys whose result atom carries a triple (the stated domain); any table *)
+Theorem C14_ja_total_unary : forall x t, result_ternary x -> exists rs, GenJa.apply_unary_rules x t = Ok_ rs.
+Proof. intros x t H. now apply ja_unary_total. Qed.
+
+(* with a set of seen rules the result is exactly the unrestricted result when the raw pair is in the set, else empty *)
+Theorem C14_ja_seen_filter : forall x y S,
+  GenJa.apply_binary_rules x y (Some S) = if seen_mem (x, y) S then GenJa.apply_binary_rules x y None else Ok_ [].
+Proof. exact ja_seen_filter. Qed.
+Theorem C14_ja_seen_key_is_raw : GenJa.seen_clear = [] /\ GenJa.key_clear = [] /\ forall k S, seen_mem k S = true <-> In k S.
+Proof. split; [reflexivity | split; [reflexivity | exact seen_mem_In]]. Qed.
+
+(* the unary rules return exactly the configured targets for a category, in order, and nothing for others *)
+Theorem C14_ja_unary_exact : forall x t rs, GenJa.apply_unary_rules x t = Ok_ rs -> map rcat rs = targets x t.
+Proof. exact ja_unary_exact. Qed.
+Theorem C14_ja_unary_none : forall x t, table_get x t = None -> GenJa.apply_unary_rules x t = Ok_ [].
+Proof. exact ja_unary_none. Qed.
+
+(* outside the domain the exception is real: a triple meeting a feature-less atom of the same name *)
+Example C14_ja_mixed_systems_raise :
+  GenJa.apply_binary_rules (Fun (Atom [83] (FTer [109] [110] [102] [98] [105] [102])) [47] (Atom [78;80] (FTer [99] [103] [109] [110] [105] [102])))
+                           (Atom [78;80] FNone) None = Err AttrErr.
+Proof. vm_compute. reflexivity. Qed.
